@@ -5,6 +5,7 @@ package c09
 
 import (
 	"fmt"
+	"runtime"
 	"sync"
 	"testing"
 	"time"
@@ -327,6 +328,7 @@ var concAssumptions = []string{
 func TestConcurrent(t *testing.T) {
 	r := kit.NewRec("C09", "Concurrent", concRule, concAssumptions...)
 	kit.Check(t, r, genConc, runConc)
+	t.Logf("goroutines at the end of the unit: %d", runtime.NumGoroutine())
 }
 
 func TestReplayConcurrent(t *testing.T) {
